@@ -141,8 +141,20 @@ type MethodObs struct {
 	Filter  []string `json:"filter"`
 }
 
+// SwaggerOp is one operation of the OpenAPI document as marshalled.
+type SwaggerOp struct {
+	Path    string   `json:"path"`
+	Method  string   `json:"method"`
+	PathP   []string `json:"path_params"`
+	Query   []string `json:"query"`
+	HasBody bool     `json:"has_body"`
+	Body    []string `json:"body"`
+	OpID    string   `json:"operation_id"`
+}
+
 type Result struct {
 	ID       int               `json:"id"`
+	Swagger  []SwaggerOp       `json:"swagger,omitempty"`
 	Stages   []Stage           `json:"stages"`
 	Img      *Img              `json:"img,omitempty"`
 	Src      []SrcSvcObs       `json:"src,omitempty"`
@@ -346,8 +358,56 @@ func clientFromSource(res *Result, api *source_j5pb.API) {
 		if !json.Valid(bb) {
 			return fmt.Errorf("OpenAPI document is not valid JSON")
 		}
+		res.Swagger = swaggerOps(bb)
 		return nil
 	})
+}
+
+// swaggerOps reads the operations back from the marshalled document.
+func swaggerOps(doc []byte) []SwaggerOp {
+	var top struct {
+		Paths map[string]map[string]struct {
+			OperationID string `json:"operationId"`
+			Parameters  []struct {
+				Name string `json:"name"`
+				In   string `json:"in"`
+			} `json:"parameters"`
+			RequestBody *struct {
+				Content map[string]struct {
+					Schema struct {
+						Properties map[string]json.RawMessage `json:"properties"`
+					} `json:"schema"`
+				} `json:"content"`
+			} `json:"requestBody"`
+		} `json:"paths"`
+	}
+	if err := json.Unmarshal(doc, &top); err != nil {
+		return nil
+	}
+	var out []SwaggerOp
+	for p, ops := range top.Paths {
+		for method, op := range ops {
+			so := SwaggerOp{Path: p, Method: method, OpID: op.OperationID}
+			for _, prm := range op.Parameters {
+				switch prm.In {
+				case "path":
+					so.PathP = append(so.PathP, prm.Name)
+				case "query":
+					so.Query = append(so.Query, prm.Name)
+				}
+			}
+			if op.RequestBody != nil {
+				so.HasBody = true
+				for name := range op.RequestBody.Content["application/json"].Schema.Properties {
+					so.Body = append(so.Body, name)
+				}
+				sort.Strings(so.Body)
+			}
+			out = append(out, so)
+		}
+	}
+	sort.Slice(out, func(i, j int) bool { return out[i].OpID < out[j].OpID })
+	return out
 }
 
 var verbArm = map[string]int{"get": 1, "post": 2, "put": 3, "delete": 4, "patch": 5}
